@@ -18,7 +18,7 @@ var ruleOf = map[string]string{
 	"C05": "one evaluation = one DecodeObject call on one delivered message passed through the fault injector; distinct+non-trivial = distinct (fault kind, type shape) pairs of operations in which the fault changed the bytes the decoder reads",
 	"C06": "one evaluation = one decode followed by an invariant sweep (snapshot equality, alignment, pairwise disjointness, no aliasing of any input buffer) over all live objects; a sweep also runs after every GC / scribble / drop / recheck event; distinct+non-trivial = distinct run histories (by schedule hash + first-use order) that kept >= 2 objects alive across >= 1 forced GC and >= 1 buffer scribble",
 	"C07": "one evaluation = one bank operation executed inside a seeded history and compared with the same operation executed first and alone in a fresh process; distinct+non-trivial = distinct (operation kind, fault, type shape) tags among operations that had at least one predecessor in their history",
-	"C08": "one evaluation = one seeded schedule (child run) of 2-8 caller tasks with first uses of mutually nested types and staggered arrivals; distinct+non-trivial = distinct schedule hashes with at least one context switch and at least one of: a task waited for the registration lock, a switch happened while the lock was held, two objects of one pool were checked out at once",
+	"C08": "one evaluation = one seeded schedule: one round (2-8 caller tasks, first uses of a cluster of mutually nested types nobody in the process has used, staggered arrivals or a storm) of a child run of 6-12 rounds; distinct+non-trivial is counted per child run, conservatively: distinct schedule hashes (over all rounds of the run) with at least one context switch and at least one of: a task waited for the registration lock, a switch happened while the lock was held, two objects of one pool were checked out at once",
 	"C09": "one evaluation = one decode (or encode) whose expected verdict is known by construction (which required fields were omitted or retyped, at which nesting position); distinct+non-trivial = distinct (omitted count, type shape) tags",
 	"C13": "one evaluation = one call (EncodedSize / EncodeObject / DecodeObject) on an invalid-by-construction definition, on a definition that transitively contains one, with a non-struct argument, or on a bystander type compared with its fresh-process result; distinct+non-trivial = distinct (defect class, entry point) pairs",
 	"C16": "one evaluation = one call with before/after snapshots of the argument, of the whole output arena (canaries) or of the input buffer, under schedules in which the same value objects and input buffers are shared read-only by several tasks (race build: any write by frugal to them is a ThreadSanitizer report); distinct+non-trivial = distinct (operation kind, buffer plan, type shape) tags",
@@ -31,6 +31,9 @@ func (c *Checker) evaluations() int64 {
 	case "C07":
 		return a.DigestCompared
 	case "C08":
+		if a.Rounds > int64(a.Runs) {
+			return a.Rounds // every round of a run is one schedule of its own tasks on its own fresh types
+		}
 		return int64(a.Runs)
 	case "C13", "C17":
 		return a.Evals + a.DigestCompared
